@@ -22,21 +22,7 @@ pub struct ServiceId { _p: () }
 //@item broker/src/broker/state.rs struct State
 
 impl State {
-    // all fields except number `skip` are equal
-    spec fn rest_eq(&self, o: &Self, skip: int) -> bool {
-        &&& (skip == 0 || self.shutdown_now == o.shutdown_now)
-        &&& (skip == 1 || self.shutdown_idle == o.shutdown_idle)
-        &&& (skip == 2 || self.remove_conns == o.remove_conns)
-        &&& (skip == 3 || self.remove_function_calls == o.remove_function_calls)
-        &&& (skip == 4 || self.services_destroyed == o.services_destroyed)
-        &&& (skip == 5 || self.unsubscribe_event == o.unsubscribe_event)
-        &&& (skip == 6 || self.unsubscribe_all_events == o.unsubscribe_all_events)
-        &&& (skip == 7 || self.create_object == o.create_object)
-        &&& (skip == 8 || self.destroy_object == o.destroy_object)
-        &&& (skip == 9 || self.create_service == o.create_service)
-        &&& (skip == 10 || self.destroy_service == o.destroy_service)
-        &&& (skip == 11 || self.abort_function_calls == o.abort_function_calls)
-    }
+    //@include _shared/state_specs.rs
 
     //@fn broker/src/broker/state.rs State::new
         ensures
